@@ -38,3 +38,57 @@ Proof.
   exists [0; 1; 0], [1; 0; 0]. split; [reflexivity | split; [reflexivity|]].
   cbn. unfold cinner, wdot, dot. cbn. lra.
 Qed.
+
+(* ---------------- finite differences (1-d): reuse of C13 ---------------- *)
+From Verif Require Import Lib.Axis C05.ProofsLeaf.
+From Coq Require Import Lia.
+
+Lemma vconj_R (g : list R) : vconj g = g.
+Proof. unfold vconj; cbn. apply map_id. Qed.
+
+Lemma chunks1 (x : list R) : chunks 1 (length x) x = map (fun a => [a]) x.
+Proof. induction x as [|a x IH]; [reflexivity|]. cbn [length chunks map firstn skipn]. f_equal. exact IH. Qed.
+Lemma transp1 (x : list R) : transp 1 (map (fun a => [a]) x) = [x].
+Proof. induction x as [|a x IH]; [reflexivity|]. cbn [map transp]. rewrite IH. reflexivity. Qed.
+Lemma zipcons_nil (y : list R) : Axis.zipcons y (repeat [] (length y)) = map (fun a => [a]) y.
+Proof. induction y as [|a y IH]; [reflexivity|]. cbn [length repeat Axis.zipcons map]. f_equal. exact IH. Qed.
+Lemma concat_singletons (y : list R) : concat (map (fun a => [a]) y) = y.
+Proof. induction y as [|a y IH]; [reflexivity|]. cbn [map concat app]. f_equal. exact IH. Qed.
+
+Lemma along_axis_1d (F : list R -> list R) (x : list R) : length (F x) = length x ->
+  along_axis [length x] 0 F x = F x.
+Proof.
+  intros HF. unfold along_axis, along. cbn [nth firstn skipn prodn fold_right].
+  rewrite Nat.mul_1_r. cbn [chunks map]. rewrite firstn_all. cbn [concat]. rewrite app_nil_r.
+  unfold along_block. rewrite chunks1, transp1. cbn [map transp].
+  rewrite <- HF at 1. rewrite zipcons_nil. apply concat_singletons.
+Qed.
+
+Lemma pderiv_1d m p c dx (x : list R) : (2 <= length x)%nat ->
+  pderiv [length x] 0 m p c dx x = fd m p c dx x.
+Proof. intros Hn. unfold pderiv. apply along_axis_1d. apply fd_length; assumption. Qed.
+Lemma pderiv_1d' n m p c dx (x : list R) : length x = n -> (2 <= n)%nat ->
+  pderiv [n] 0 m p c dx x = fd m p c dx x.
+Proof. intros Hx Hn; subst n; apply pderiv_1d; assumption. Qed.
+
+(* PartialDerivative on a 1-d uniformly weighted discretisation (weights all equal c) *)
+Lemma leaf_ok_pderiv_1d (c dx : R) (n : nat) (m : meth) (p : pmode) :
+  dx <> 0 -> (2 <= n)%nat ->
+  bnd_in_range n (boundary_tab p m) = true ->
+  bnd_in_range n (boundary_tab (adj_padding p) (adj_method m)) = true ->
+  leaf_ok (LPDeriv (repeat c n) (repeat c n) [n] 0 m p dx).
+Proof.
+  intros Hdx Hn Hb1 Hb2. split; [|split; reflexivity]. cbn [leaf_dom leaf_ran leaf_adjoint].
+  split; [|split]; rewrite ?repeat_length.
+  - intros x Hx. cbn [eval_leaf]. rewrite (pderiv_1d' n) by assumption. rewrite fd_length; lia.
+  - intros y Hy. cbn [eval eval_leaf]. rewrite vscal_len. rewrite (pderiv_1d' n) by assumption.
+    rewrite fd_length; lia.
+  - intros x y Hx Hy. cbn [eval eval_leaf].
+    assert (Hxy : length x = length y) by congruence.
+    rewrite !(pderiv_1d' n) by assumption.
+    rewrite !(cinner_const cring_ok_R) by (rewrite ?fd_length; lia).
+    rewrite !vconj_R. rewrite (dot_vscal_r cring_ok_R).
+    change (@nzero R Num_R) with 0.
+    rewrite (fd_adjoint_all m p dx x y Hdx Hxy) by (rewrite ?Hx; assumption).
+    cbn. ring.
+Qed.
